@@ -30,7 +30,7 @@ def main(tier, only=None):
     ]
     chk.outside += [
         "call graphs on more than 3 functions; references recorded by primary()/function() (token level)",
-        "behaviour of linked multi-unit programs under PIC/static (needs ld); gen_addr forms; string literals and "
+        "behaviour of linked multi-unit programs under PIC/static (needs ld); string literals and "
         "static locals as anonymous globals; relocations in initialised data",
     ]
     if want("mark_live"):
@@ -44,7 +44,8 @@ def main(tier, only=None):
     if want("scan_globals"):
         e1.run_set(chk, "c15/link.c", [e1.H("h_scan_globals", "scan_globals/tentative", unwind=9, timeout=300)], workers=2)
     if want("emit"):
-        hs = [e1.H("h_emit_data", "emit/data", unwind=42, timeout=300),
+        hs = [e1.H("h_gen_addr", "emit/address-formation", unwind=42, timeout=300),
+              e1.H("h_emit_data", "emit/data", unwind=42, timeout=300),
               e1.H("h_emit_text", "emit/text", unwind=42, timeout=300, defines=("HK_text",),
                    replace_calls=("gen_stmt:stub_gen_stmt",))]
         e1.run_set(chk, "c15/emit.c", hs, workers=4)
